@@ -10,6 +10,7 @@ open Lean MontePyVerif.World
 def codeCfg : Cfg :=
   { writesClosure := MontePyVerif.Gen.Setters.templatesWriteClosure
     readerResetsQueue := MontePyVerif.Gen.Setters.readerResetsQueue
+    queuePerPath := MontePyVerif.Gen.Setters.queuePerPath
     restartClearsLog := MontePyVerif.Gen.Setters.restartClearsLog
     slyParseRestarts := MontePyVerif.Gen.Setters.slyParseRestarts
     objectInitRestarts := MontePyVerif.Gen.Setters.objectInitRestarts
@@ -79,7 +80,7 @@ def parseTypes (j : Json) : Except String Types :=
 
 def parseOp (j : Json) : Except String Op := do
   match (← (← arrAt j 0).getStr?) with
-  | "read" => pure (.read (← natAt j 1) (← parseFiles (← arrAt j 2)) (← natAt j 3))
+  | "read" => pure (.read (← natAt j 1) (← natAt j 4) (← parseFiles (← arrAt j 2)) (← natAt j 3))
   | "setImp" => pure (.setImp (← natAt j 1) (← natAt j 2) (← intAt j 3))
   | "setVol" => pure (.setVol (← natAt j 1) (← natAt j 2) (← intAt j 3))
   | "setNum" => pure (.setNum (← natAt j 1) (← natAt j 2) (← intAt j 3))
@@ -99,12 +100,16 @@ def runCase (j : Json) : Except String Json := do
   let fuel ← (← j.getObjVal? "fuel").getNat?
   let ops ← (← j.getObjVal? "ops").getArr?
   let ops ← ops.toList.mapM parseOp
+  -- the keys under which a queue can exist: 0 (one queue for the process) and every path of the case
+  let keys : List Nat := (0 :: ops.filterMap (fun op => match op with | .read _ path _ _ => some path | _ => none)).eraseDups
+  let keys := keys.toArray.qsort (· < ·) |>.toList
   let (_, out) := ops.foldl (fun (acc : World × List Json) op =>
       let (w1, r) := step codeCfg fuel acc.1 op
       let cell := match op with
         | .setter d _ _ => optNat (w1.latch d.id)
         | _ => Json.null
-      (w1, Json.mkObj [("res", resJson r), ("queue", toJson w1.queue), ("log", toJson (decide (w1.log > 0))),
+      (w1, Json.mkObj [("res", resJson r), ("queue", Json.arr ((keys.filter (fun k => !(w1.queue k).isEmpty)).map
+                          (fun k => Json.arr #[toJson k, toJson (w1.queue k)])).toArray), ("log", toJson (decide (w1.log > 0))),
                        ("cell", cell)] :: acc.2)) (World.fresh, [])
   return Json.arr out.reverse.toArray
 
